@@ -24,3 +24,30 @@ def amend_in_default_storage_mode():
         return sorted({v["kind"] for v in sc.viol}), [dict(v) for v in sc.viol[:3]]
     finally:
         sc.destroy()
+
+
+def long_credential_in_notes_mode():
+    """D96 (fixed): prompt_storage=notes; the conversation contains a 93-character GitHub fine-grained token (`github_pat_...`) and a
+    128-character base64 secret; AI commit => both were written to the note unmasked: tokens longer than 90 characters were never
+    examined at all (the detector's tables are sized for 90)."""
+    from ..props import c08
+    from ..secrets_gen import planted_token
+    prof = dict(sessions=1, files=1, hostile_content=False, hostile_names=False, crlf=False, no_final_nl=False, decoys=False, human_ckpt_rate=0.0, reindent=False)
+    sc = c08.Sc8("WD96", 0, 0, prof, world_kwargs=dict(prompt_storage="notes"))
+    sc.mode = "notes"
+    try:
+        sc.rng = random.Random(96)
+        sc.setup_agents()
+        sc.kinds["S1"] = "agent-v1"
+        sc.tokens["S1"] = [planted_token(sc.rng, "github_pat") + ("user",), planted_token(sc.rng, "b64long") + ("assistant",),
+                           planted_token(sc.rng, "github_pat") + ("thinking",), planted_token(sc.rng, "b64long") + ("plan",)]
+        sc.files = ["f.txt"]
+        sc.write("f.txt", [sc.fresh("human", hostile=False) for _ in range(4)])
+        sc.commit_all("init")
+        sc.do_edit(author="S1", f="f.txt", kinds=["ins"])
+        sc.commit_all("ai")
+        sc.after_step("commit")
+        vs = [v for v in sc.viol if v["kind"].startswith("C08/")]
+        return sorted({v["kind"] + "@" + str(v.get("shape")) for v in vs}), [dict(v) for v in vs[:3]]
+    finally:
+        sc.destroy()
